@@ -7,6 +7,10 @@
   `parseTdispatch`, `parseTdiscarded`, `decodeWire`, `utf8Decode`, `i64?` are written from the
   frame description and share no code with the encoder.
 
+  The connection's byte stream: `splitStream` / `parseStream` (Adapter) split a stream by its
+  length prefixes alone; `streamOf items` (the model) is what the send loop — the only writer —
+  puts on the connection for the messages queued, whole frame after whole frame.
+
   Quantification: every message type in int8, every tag < 2^24, every sequence of property
   and header assignments with text (Unicode scalar values, UTF-8 length < 2^15) or deadline
   (two int64) values, every payload; no size bounds other than the format's own
@@ -228,6 +232,84 @@ theorem C13_unmarshal_skips_contexts (cs : List (Bytes × Bytes)) (rest : Bytes)
   rw [s16_be16 _ hn]
   simp only [Int.toNat_natCast, skipContexts_enc cs rest h, s8]
   simp
+
+/-! ## the byte stream of a connection -/
+
+/-- framing, for all frames: the bytes of any sequence of frames — any type in int8, any
+    24-bit tag, any body — written one after the other split, by the length prefixes alone,
+    into exactly those frames (`parseStream (frames.flatten) = frames`) -/
+theorem C13_stream_framing (fs : List Frame) (bss : List Bytes)
+    (hw : List.Forall₂ (fun f bs => frameOf f.tag f.ty f.body = .ok bs) fs bss)
+    (htag : ∀ f ∈ fs, f.tag < 16777216) :
+    parseStream bss.flatten = some fs := by
+  have key : bss = fs.map encFrame ∧ ∀ f ∈ fs, frameOk f = true := by
+    induction hw with
+    | nil => exact ⟨rfl, by simp⟩
+    | @cons f bs fs bss h _ ih =>
+      obtain ⟨e, hok⟩ := ih (fun g hg => htag g (List.mem_cons_of_mem _ hg))
+      obtain ⟨h1, h2, h3⟩ := frameOf_inv _ _ _ _ h
+      refine ⟨by rw [List.map_cons, ← e, h3]; rfl, ?_⟩
+      intro g hg
+      rcases List.mem_cons.1 hg with rfl | hg
+      · simp only [frameOk, h1, Bool.true_and, Bool.and_eq_true, decide_eq_true_eq]
+        exact ⟨htag _ List.mem_cons_self, by omega⟩
+      · exact hok g hg
+  rw [key.1]
+  exact parseStream_enc fs key.2
+
+/-- prefix code, with no hypothesis on the messages: whatever byte strings the client writes
+    for a sequence of queued messages, their concatenation splits back into exactly those
+    byte strings — the send loop being the only writer, the peer sees the frames it was sent -/
+theorem C13_stream_splits_into_written_frames (items : List (Nat × Msg)) (bss : List Bytes)
+    (hw : List.Forall₂ (fun it bs => wire it.1 it.2 = .ok bs) items bss) :
+    splitStream bss.flatten = some bss := by
+  apply splitStream_flatten
+  induction hw with
+  | nil => simp
+  | @cons it bs items bss h _ ih =>
+    intro c hc
+    rcases List.mem_cons.1 hc with rfl | hc
+    · obtain ⟨ty, body, _, hlen, rfl⟩ := wire_inv _ _ _ h
+      exact isChunk_encFrame ⟨ty, it.1, body⟩ (by simp only []; omega)
+    · exact ih c hc
+
+/-- the stream of any in-domain messages queued under 24-bit tags (calls, the transport's
+    Tdiscarded, keep-alive pings, in any number and order) splits into one byte string per
+    message, and the independent decoder recovers from each exactly the message supplied -/
+theorem C13_stream_of_queued_messages (items : List (Nat × Msg))
+    (h : ∀ it ∈ items, it.2.inDomain = true ∧ it.1 < 16777216) :
+    ∃ bss, splitStream (streamOf items) = some bss ∧
+      bss.map decodeWire = items.map (fun it => some (expectedOf it.1 it.2)) :=
+  ⟨_, splitStream_streamOf items (items_all_ok items h), decode_items items h⟩
+
+/-- no two different sequences of frames have the same byte stream -/
+theorem C13_stream_unambiguous (fs gs : List Frame) (bss css : List Bytes)
+    (hf : List.Forall₂ (fun f bs => frameOf f.tag f.ty f.body = .ok bs) fs bss)
+    (hg : List.Forall₂ (fun f bs => frameOf f.tag f.ty f.body = .ok bs) gs css)
+    (htf : ∀ f ∈ fs, f.tag < 16777216) (htg : ∀ f ∈ gs, f.tag < 16777216)
+    (h : bss.flatten = css.flatten) : fs = gs := by
+  have h1 := C13_stream_framing fs bss hf htf
+  have h2 := C13_stream_framing gs css hg htg
+  rw [h, h2] at h1
+  exact (Option.some.inj h1).symm
+
+/-- a stream has one reading: a byte stream the stream decoder accepts is the concatenation
+    of the canonical encodings of the frames it returns -/
+theorem C13_stream_decoder_canonical (bs : Bytes) (fs : List Frame) (hb : ∀ b ∈ bs, b < 256)
+    (h : parseStream bs = some fs) :
+    bs = (fs.map (fun f => be32 (4 + f.body.length) ++ ([toU 256 f.ty] ++ encodeTag f.tag) ++ f.body)).flatten :=
+  (parseStream_inv bs fs hb h).1
+
+/-- what goes wrong when the send loop is not the only writer: a Tping written after the
+    first 6 bytes of a Tdispatch leaves a stream that is not a sequence of frames, while the
+    same two frames written whole, in either order, are read back -/
+theorem C13_interleaved_write_counterexample :
+    wire 2 (.call [] [] [7, 8]) = .ok [0, 0, 0, 12, 2, 0, 0, 2, 0, 0, 0, 0, 0, 0, 7, 8] ∧
+    wire 1 .ping = .ok [0, 0, 0, 4, 65, 0, 0, 1] ∧
+    parseStream ([0, 0, 0, 12, 2, 0, 0, 2, 0, 0, 0, 0, 0, 0, 7, 8] ++ [0, 0, 0, 4, 65, 0, 0, 1])
+      = some [⟨2, 2, [0, 0, 0, 0, 0, 0, 7, 8]⟩, ⟨65, 1, []⟩] ∧
+    parseStream ([0, 0, 0, 12, 2, 0] ++ [0, 0, 0, 4, 65, 0, 0, 1] ++ [0, 2, 0, 0, 0, 0, 0, 0, 7, 8]) = none := by
+  decide
 
 /-! ## the model satisfies the executable specification the harness evaluates -/
 
